@@ -14,6 +14,7 @@
 //	frames  every frame shape: chains of <= 3 frames over the 4 call kinds, one optional sibling call, 10 actions
 //	codeid  code identity: 2-3 contracts that all jump in one transaction, layouts enumerated against each other
 //	createret  CREATE/CREATE2 x init-code shapes (deposit refused for gas / size, revert, fault) x what the caller then sees
+//	precompile  CALL/CALLCODE/top-level call to 0x01..0x09 x value x gas x input: a failed frame changes nothing, consumes its gas
 //	wrap    state-changing tokens inside STATICCALL / reverting / failing / nested-reverting frames and at
 //	        the bottom of a self-recursion to the depth limit; stack-limit programs; loops
 package main
@@ -658,6 +659,13 @@ func doReplay() {
 	p.tinyGas = cs.Gas == gasTinySeq || cs.Gas == gasTinyRaw
 	p.nilChainID = cs.NilChainID
 	p.create = cs.Create
+	if cs.To != "" {
+		a := mkAddr(cs.To)
+		p.toAddr = &a
+	}
+	for _, h := range cs.Probe {
+		p.probe = append(p.probe, mkAddr(h))
+	}
 	for _, e := range cs.Expect {
 		if strings.Contains(e, "change") {
 			p.wantPre = true
@@ -749,6 +757,7 @@ func main() {
 	phase("frames", runFrames)
 	phase("codeid", runCodeID)
 	phase("createret", runCreateRet)
+	phase("precompile", runPrecompiles)
 	phase("singles", runSingles)
 	phase("sweep", runSweep)
 	phase("create", runCreateTop)
@@ -837,7 +846,9 @@ func main() {
 		"the code-identity scenarios (2-3 contracts that all JUMP in one transaction, layouts enumerated so that at each jump-target offset the other program has a JUMPDEST / another opcode / PUSH data 0x5b / other PUSH data / "+
 		"its end nearby / its end far before / a truncated PUSH, jump before or after the call, 4 call kinds, same code at two addresses, self-call; own absolute model plus differential, see codeid_scenarios); "+
 		"the create-return scenarios (CREATE / CREATE2 x 9 init-code shapes {small, empty, stop, 1000-byte deposit with the frame's gas swept across every schedule's code-store threshold, 30000 and 40000 bytes, revert with / without data, fault} "+
-		"x {RETURNDATASIZE, RETURNDATACOPY of 1 byte, RETURNDATACOPY of everything} x {in a called frame, in the top frame}; absolute oracle: the return-data buffer is empty after every creation that did not revert, see createret_kvm_outcomes). "+
+		"x {RETURNDATASIZE, RETURNDATACOPY of 1 byte, RETURNDATACOPY of everything} x {in a called frame, in the top frame}; absolute oracle: the return-data buffer is empty after every creation that did not revert, see createret_kvm_outcomes); "+
+		"the precompile scenarios (CALL / CALLCODE / transaction-style top-level call to each address 0x01..0x09 x value {0,1,7} x gas {0, just below the price, 500000, 501000} x inputs {empty, valid, rejected, unpayable}, "+
+		"returning flag, both balances, EXTCODEHASH / EXTCODESIZE of the target, RETURNDATASIZE; absolute oracle: a failed frame changes no state and consumes the gas it was given, a successful CALL moves exactly the value, see precompile_kvm_outcomes). "+
 		"Token sequences of length <= 2, single bodies and (thorough) length 3 and raw codes run under call data {empty,32B,36B} x gas {tiny,ample}; quick: length 3 under (36B, ample), raw codes under {(36B,ample),(empty,ample),(36B,tiny)}; thorough length 4 under (36B, ample). Everything under both instruction sets. "+
 		"evaluations = executions on KVM plus on the reference. A program is distinct by construction (unique code bytes) and counted non-trivial when, for at least one (input, gas, instruction set), "+
 		"KVM dispatched >= 1 instruction past the prelude AND no frame on either side ran out of gas or fetched an excluded opcode, so the differential oracle was applied.")
